@@ -185,6 +185,11 @@ var quiet = doubles.NewLogger()
 // stuckCases counts cases in which the loop stopped consuming inputs.
 var stuckCases int32
 
+// patience multiplies every wall-clock bound of the harness. No verdict and no output depends on a bound
+// being MET in time - bounds only end a case whose loop or stage is really stuck - and a case that ends with a
+// verdict is run again, alone on a fresh loop with patience 10, before the verdict is reported (exec).
+var patience time.Duration = 1
+
 func run(rids [][]byte, evs []ev) map[int]*inst {
 	id := []byte("verif-c13-node-00001")
 	pd := doubles.NewP2P(id, 0)
@@ -318,7 +323,6 @@ func runStage(rids [][]byte, evs []ev) map[int]*inst {
 	loopDone := make(chan struct{})
 	go func() { node.VerifQueryLoop(); close(loopDone) }()
 	insts := map[int]*inst{}
-	lgs := map[int]*doubles.Logger{}
 	outClosed := map[int]chan struct{}{}
 	reported := map[int]chan struct{}{}
 	get := func(k int) *inst {
@@ -331,21 +335,22 @@ func runStage(rids [][]byte, evs []ev) map[int]*inst {
 		return in
 	}
 	deliver := func(m proto.Message) { pd.Deliver([]byte("peer"), m) }
-	// settle: every share the loop handed to the stage of `in` so far has been processed. The loop is idle
-	// (it took the sync message), so the stage has RECEIVED them; recoverSign logs its Event right after the
-	// receive and then runs to its report without waiting for anything but the harness' reader.
+	// settle: every share the loop handed to the stage of `in` so far has been PROCESSED - no clock involved.
+	// The loop is idle (it took the sync message), so the stage has received them. A message the stage skips
+	// (nil Signature) is now sent on the stage's own input: the unbuffered send completes only when the stage -
+	// or, once it returned, its drain - takes it, i.e. after everything before it has been processed and the
+	// report, if any, has been handed to the reader below. (Until round 5c this waited up to 20 ms of wall clock
+	// for the stage's log event: on a loaded machine the cancel could overtake a report in flight - the false
+	// alarm "1 disagreement + lost-or-extra" of the acceptance run.)
 	settle := func(k int, in *inst) {
-		lg := lgs[k]
-		if lg == nil {
+		if outClosed[k] == nil {
 			return
 		}
-		lg.WaitCount("recoverSign", 1, nil, 20*time.Millisecond)
-		if lg.Count("recoverSign") >= 1 {
-			select {
-			case <-reported[k]:
-			case <-outClosed[k]:
-			case <-time.After(5 * time.Second):
-			}
+		marker := &vss.Signature{}
+		select {
+		case in.reply <- marker:
+		case <-in.ctx.Done():
+		case <-time.After(patience * 60 * time.Second):
 		}
 	}
 	for i, e := range evs {
@@ -366,8 +371,7 @@ func runStage(rids [][]byte, evs []ev) map[int]*inst {
 				in.regAt = i
 				// the recovery stage of this pipeline: the REAL recoverSign reading the channel that is registered
 				k := e.h
-				lgs[k] = doubles.NewLogger()
-				out, errc := dosnode.VerifRecoverSign(in.ctx, in.reply, suite, pub, 1, 1, lgs[k])
+				out, errc := dosnode.VerifRecoverSign(in.ctx, in.reply, suite, pub, 1, 1, quiet)
 				outClosed[k] = make(chan struct{})
 				reported[k] = make(chan struct{})
 				go func() {
@@ -558,9 +562,9 @@ func runInc(rids [][]byte, evs []ev) map[int]*inst {
 			select {
 			case in.reply <- &vss.Signature{}:
 			case <-in.ctx.Done():
-			case <-time.After(5 * time.Second):
+			case <-time.After(patience * 60 * time.Second):
 			}
-		case <-time.After(5 * time.Second):
+		case <-time.After(patience * 60 * time.Second):
 		}
 	}
 	for i, e := range evs {
@@ -900,7 +904,28 @@ func classify(evs []ev) (string, bool) {
 	return fmt.Sprintf("arrivals=%d regs=%d cancels=%d", na, nr, nc), na > 0 && nr > 0
 }
 
+// exec: a property-oracle verdict (or a stuck loop) is reported only if it REPRODUCES on a second run of the
+// case alone (fresh node, fresh loop, ten times the bounds): a loaded machine must not be able to raise an alarm.
 func exec(line string) (res h.Result) {
+	res = exec1(line)
+	if res.Oracle == "" || os.Getenv("VERIF_C13_CHILD") != "" {
+		return
+	}
+	first := res
+	patience = 10
+	res = exec1(line)
+	patience = 1
+	if res.Oracle == "" {
+		sig := first.Oracle
+		if i := strings.Index(sig, ":"); i >= 0 {
+			sig = sig[:i]
+		}
+		res.Class = "verdict of the first run not reproduced (" + sig + "); " + res.Class
+	}
+	return
+}
+
+func exec1(line string) (res h.Result) {
 	rids, evs := parse(line)
 	res.Class, res.Nontrivial = classify(evs)
 	if needsChild(rids, evs) && os.Getenv("VERIF_C13_CHILD") == "" {
@@ -961,10 +986,12 @@ func exec(line string) (res h.Result) {
 			res.Impl = render(insts)
 			res.Oracle = oracle(rids, evs, insts)
 		}
-	case <-time.After(5 * time.Second):
-		// the loop did not take an input within 5 s: it is stuck in a send nobody will receive
+	case <-time.After(patience * 5 * time.Second):
+		// the loop did not take an input within 5 s (50 s when the case is re-run): it is stuck in a send nobody will receive
 		res.Impl = "stuck"
-		atomic.AddInt32(&stuckCases, 1)
+		if patience > 1 {
+			atomic.AddInt32(&stuckCases, 1)
+		}
 		res.Oracle = "collector-blocked: the loop stopped consuming its inputs (it waits in a send to a request whose receiver is gone: cancelled, unregistered, or completed with its context still live); every other request is starved"
 	}
 	return
